@@ -121,9 +121,11 @@ def r14_2(run, model):
         t["dependency pins"] = ("same writes to dep_hashes", writes)
         t["loader"] = "load_interface_from_paths(&dep,&opts.interface_paths)?" in body
         m = re.search(r"typecheck_single_package\(([^;]*?)\);", body)
-        t["typecheck args"] = m.group(1) if m else None
+        # what is handed over, not how (a clone of a value and the value itself are the same argument)
+        same = lambda a_: re.sub(r"\.clone\(\)|&", "", a_)
+        t["typecheck args"] = same(m.group(1)) if m else None
         m = re.search(r"InterfaceUnit::new\(([^;]*?)\);", body)
-        t["interface args"] = m.group(1) if m else None
+        t["interface args"] = same(m.group(1)) if m else None
         # the stages that can reject the sources: a diagnostics-producing stage followed by its gate
         from rules import c03
         ev = c03.events_of(run, f)
